@@ -314,7 +314,7 @@ G1 = {
     },
 }
 ABSTRACT = {'Named': ['User', 'Item', 'SpecialItem', 'Tag'], 'Timed': ['User', 'Order']}
-GLOBALS = {'cur_user_name': 's', 'lim_n': 'i', 'tenant': 's'}
+GLOBALS = {'cur_user_name': 's', 'lim_n': 'i', 'tenant': 's', 'cur_uid': 'u'}
 CAST = {'i': 'int64', 'f': 'float64', 's': 'str', 'b': 'bool', 'd': 'datetime', 'j': 'json', 'e': 'Status', 'u': 'uuid'}
 EDGE_NAMES = ['x', 'y', 'val', '`select`', '`order`', '`from`', '`q~1`', '`a"b`', "`it's`", '`UPPER`', 'ünï', '`два слова`',
               '`' + 'n' * 70 + '`', '`' + 'n' * 70 + '2`', '`v~1`', '`expr~3_value~1`', '`User`', '`id`', '`__type__x`',
@@ -883,7 +883,7 @@ class QueryGen:
         r = self.r
         d = self.maxdepth
         kind = r.choice(['select', 'select', 'select', 'insert', 'update', 'delete', 'for', 'for', 'group', 'with-dml', 'wrapped-dml',
-                         'if-dml'])
+                         'if-dml', 'dml-chain', 'multi-global', 'abstract-root'])
         self.feat.add('stmt:' + kind)
         if kind == 'select':
             body = self.select([], d)
@@ -928,6 +928,76 @@ class QueryGen:
             t = r.choice(['User', 'Item', 'Tag'])
             dml = r.choice([self.insert, self.update])(t, [], d - 1) if True else None
             body = f'select {dml} {self.shape(t, d - 1)}'
+        elif kind == 'dml-chain':
+            # DML, then navigate from its result through a link into a type that carries the DML overlay
+            self.feat.update(['with', 'insert', 'dml-overlay'])
+            u, p = self.var(), self.var()
+            first = r.choice(['insert', 'update'])
+            if first == 'insert':
+                ue = f"(insert User {{name := {self.scalar('s', [], d - 2)}, age := {self.scalar('i', [], d - 2)}}})"
+            else:
+                self.feat.add('update')
+                ue = f"(update User filter .name = {self.scalar('s', [], d - 2)} set {{age := {self.scalar('i', [], d - 2)}}})"
+            second = r.choice(['item', 'order', 'friend'])
+            if second == 'item':
+                pe = f"(insert Item {{name := {self.scalar('s', [], d - 2)}, owner := assert_single({u})}})" if first == 'update' \
+                    else f"(insert Item {{name := {self.scalar('s', [], d - 2)}, owner := {u}}})"
+                tail = f"select {p} {{name, owner: {{name, age, owned: {{name}}, {self.var()} := count(.<owner[is Item])}}}}"
+            elif second == 'order':
+                pe = f"(insert Order {{buyer := assert_single({u}), items := (select Item limit 2)}})" if first == 'update' \
+                    else f"(insert Order {{buyer := {u}, items := (select Item limit 2)}})"
+                tail = f"select {p} {{buyer: {{name, friends: {{name}}}}, items: {{name, owner: {{name}}}}, total}}"
+            else:
+                pe = f"(update User filter .name = {self.scalar('s', [], d - 2)} set {{friends += {u}}})"
+                tail = f"select {p} {{name, friends: {{name, age, @since}}, fof: {{name}}}}"
+                self.feat.add('update')
+            body = f"with {u} := {ue}, {p} := {pe} {tail}"
+        elif kind == 'multi-global':
+            # several globals; one with a default (it gets a "present" flag parameter) before/after others
+            self.feat.add('global')
+            gs = r.sample(['lim_n', 'cur_user_name', 'tenant', 'cur_uid'], r.randint(2, 4))
+            parts = []
+            for g in gs:
+                form = r.random()
+                if form < 0.5:
+                    parts.append(f'(global {g})')
+                elif form < 0.75:
+                    parts.append(f'exists (global {g})')
+                else:
+                    parts.append(f'(<str>(global {g}) ?? {self.lit("s")})')
+            extra = [self.param(r.choice('is'), optional=False) for _ in range(r.randint(0, 2))]
+            form = r.choice(['tuple', 'filter', 'dead'])
+            if form == 'tuple':
+                body = f'select ({", ".join(parts + extra)})'
+            elif form == 'filter':
+                body = (f'select User {{name, g := {parts[0]}}} filter .age < ((global lim_n) ?? 5) '
+                        f'limit {extra[0] if extra and "int64" in extra[0] else self.lit("i")}')
+            else:
+                # the globals are bound but (partly) unused
+                body = f'with {", ".join(f"w{i} := {p}" for i, p in enumerate(parts))} select {extra[0] if extra else "w0"}'
+        elif kind == 'abstract-root':
+            self.feat.add('abstract')
+            a = r.choice(['Named', 'Timed', 'Named'])
+            sh = '{name, [is User].age, [is Item].price, [is Tag].n_items}' if a == 'Named' else '{created, [is User].name}'
+            cl = []
+            if r.random() < 0.6:
+                cl.append(f'filter {"." + ("name" if a == "Named" else "created")} '
+                          f'{"= " + self.scalar("s", [], d - 2) if a == "Named" else "< datetime_current()"}')
+            if r.random() < 0.5:
+                cl.append(f'order by .{"name" if a == "Named" else "created"}')
+            if r.random() < 0.4:
+                cl.append(f'limit {self.param("i", optional=False)}')
+            form = r.choice(['select', 'count', 'update', 'for'])
+            if form == 'select':
+                body = f'select {a} {sh} ' + ' '.join(cl)
+            elif form == 'count':
+                body = f'select count((select {a} ' + ' '.join(cl[:1]) + '))'
+            elif form == 'update' and a == 'Named':
+                self.feat.add('update')
+                body = f"update Named filter .name = {self.scalar('s', [], d - 2)} set {{name := .name ++ '!'}}"
+            else:
+                self.feat.add('for')
+                body = f'for x in (select {a} ' + ' '.join(cl[:1]) + f') union (select x {sh[:sh.index(",")] + "}"})'
         else:
             self.feat.add('if-else')
             c = self.scalar('b', [], d - 2) if r.random() < 0.5 else self.param('b', optional=False)
